@@ -2,7 +2,7 @@
 import json, os, sys, glob, itertools
 sys.path.insert(0, os.path.join(os.path.dirname(os.path.abspath(__file__)), "..", "bin"))
 import vlib, ctllib
-from ctllib import ev, fl, boot, add, world, SIZE
+from ctllib import ev, fl, boot, add, world, pair, SIZE
 
 # coverage bits of Ctl.Oracles.case_flags
 F_MINORITY, F_REFUSED, F_FAILOVER, F_SIGNAL, F_CHECKPOINT, F_PROMOTED, F_MONITOR, F_FAILED, F_THREE = 1, 2, 4, 8, 16, 32, 64, 128, 256
@@ -89,10 +89,24 @@ def membership_paths(rf, n):
     return [dict(rf=rf, world=world(max(n, rf)), events=h) for h in H]
 
 
+def queued_io(rf):
+    """a write / sync / unmap issued while another write is held inside the replicas: it runs after it"""
+    H = []
+    full = boot(rf, 0, list(range(1, rf)))
+    for k in range(0, rf):
+        victims = list(range(rf - 1, rf - 1 - k, -1))
+        w1 = ev("write", wid=1, off=0, len=4096, fs=[dict(a=a, k=("write" if a % 2 else "writeap")) for a in victims])
+        for second in (ev("write", wid=2, off=4096, len=4096), ev("sync"), ev("unmap"), ev("read", off=0, len=4096)):
+            H.append(full + [pair(w1, second, "write"), ev("write", wid=3, off=0, len=4096)])
+    return [dict(rf=rf, world=world(rf), events=h) for h in H]
+
+
 def gen_c03(ctx, quick):
     cases = []
     for rf in ((1, 2, 3) if quick else (1, 2, 3, 4, 5)):
         cases += membership_paths(rf, rf)
+    for rf in ((2, 3) if quick else (2, 3, 4, 5)):
+        cases += queued_io(rf)
     return cases
 
 
@@ -110,6 +124,9 @@ def gen_c04(ctx, quick):
             cases.append(dict(rf=rf, world=world(rf), events=es + [ev("read", off=0, len=4096)] * 3 + [ev("read", off=0, len=4096, fs=fl((0, "read")))] + [ev("read", off=0, len=4096)]))
             cases.append(dict(rf=rf, world=world(rf), events=es + [ev("monfail", a=a) for a in range(rf - 1)] + [ev("read", off=0, len=4096)]))
             cases.append(dict(rf=rf, world=world(rf), events=full + [ev("setmode", a=0, mode="ERR"), ev("read", off=0, len=4096), ev("read", off=0, len=4096)]))
+            for a in range(rf):
+                cases.append(dict(rf=rf, world=world(rf), events=full + [pair(ev("write", wid=1, off=0, len=4096, fs=fl((a, "write"))), ev("read", off=0, len=4096), "write"),
+                                                                         ev("read", off=0, len=4096)]))
     return cases
 
 
@@ -170,6 +187,11 @@ def gen_c13(ctx, quick):
                                                                            ev("remove", a=a), ev("snapshot", name=2)]))
             cases.append(dict(rf=rf, world=world(rf), events=full + [ev("snapshot", name=1), ev("monfail", a=rf - 1), ev("snapshot", name=2)]
                               + add(rf - 1) + [ev("snapshot", name=3)]))
+            # a replica failure / removal arriving while the snapshot request is being processed
+            for gate in ("http", "snap"):
+                for second in (ev("monfail", a=rf - 1), ev("remove", a=rf - 1), ev("setmode", a=0, mode="ERR")):
+                    cases.append(dict(rf=rf, world=world(rf), events=full + [pair(ev("snapshot", name=1), second, gate), ev("snapshot", name=2),
+                                                                             ev("monfire", a=0), ev("write", wid=1, off=0, len=4096)]))
     return cases
 
 
@@ -352,9 +374,12 @@ def main(ctx, replay=None):
     kinds = {}
     nfaults = 0
     for c in cases:
-        for e in c["events"]:
-            kinds[e["k"]] = kinds.get(e["k"], 0) + 1
-            nfaults += len(e.get("fs", []) or [])
+        for e0 in c["events"]:
+            for e in ([e0["first"], e0["second"]] if e0["k"] == "pair" else [e0]):
+                kinds[e["k"]] = kinds.get(e["k"], 0) + 1
+                nfaults += len(e.get("fs", []) or [])
+            if e0["k"] == "pair":
+                kinds["pair:" + e0["gate"]] = kinds.get("pair:" + e0["gate"], 0) + 1
     bits = dict(minority_ack=F_MINORITY, refused=F_REFUSED, failover=F_FAILOVER, start_signal=F_SIGNAL,
                 checkpoint=F_CHECKPOINT, promoted=F_PROMOTED, monitor=F_MONITOR, failed_op=F_FAILED, three_rw_replicas=F_THREE)
     extra = dict(evaluations=len(cases), distinct_nontrivial=nontriv, rule=RULE[pid],
